@@ -317,6 +317,18 @@ class Ctx:
             cmd.append("-race")
         if verbose:
             cmd.append("-v")
+        if os.path.realpath(REPO) != "/repo":
+            # judge a scratch worktree of gate instead of /repo (seeded-change evaluation):
+            # same harness sources, alternate go.mod whose replace points at that tree
+            alt = os.path.join(self.scratch, "go.alt.mod")
+            if not os.path.exists(alt):
+                mod = open(os.path.join(HARNESS, "go.mod")).read()
+                mod = mod.replace("replace go.minekube.com/gate => /repo",
+                                  "replace go.minekube.com/gate => " + os.path.realpath(REPO))
+                with open(alt, "w") as fh:
+                    fh.write(mod)
+                shutil.copy(os.path.join(HARNESS, "go.sum"), os.path.join(self.scratch, "go.alt.sum"))
+            cmd += ["-modfile", alt]
         cmd.append(pkg)
         cmd += list(args or [])
         try:
